@@ -38,3 +38,29 @@ add('M36e', [('SRC/zsp_blas2.c', "    else if ( L->nrow != L->ncol || L->nrow < 
 add('B1', [('SRC/dgssvx.c', "rowequ", "row_scaled", 'all'), ('SRC/sgssvx.c', "rowequ", "row_scaled", 'all')], [], ['C18', 'C05'], note='rename a local in dgssvx/sgssvx')
 add('B4', [('SRC/dgsrfs.c', "    notran = (trans == NOTRANS);\n    if ( !notran", "    notran = (trans == NOTRANS);\n    nz = A->nrow;\n    if ( !notran"),
            ('SRC/dgsrfs.c', "    else if ( A->nrow != A->ncol || A->nrow < 0 ||", "    else if ( nz != A->ncol || nz < 0 ||")], [], ['C18'], note='hoist A->nrow into a local (d only: sibling rule will see it)')
+
+
+def x4(relpat, old, new):
+    """the same edit in all four arithmetic variants ('?' in the file name and in old/new is the precision letter)"""
+    out = []
+    for p in 'sdcz':
+        out.append((relpat.replace('?', p), old.replace('?', p), new.replace('?', p)))
+    return out
+
+
+# ---------------------------------------------------------------- C01 (applied to all four variants so that only the oracle can see them)
+add('M01', x4('SRC/?gssv.c', "\ttrans = TRANS;\n", "\n"), ['C01'], note='row storage solved with NOTRANS')
+add('M01b', x4('SRC/?gssv.c', "Astore->nzval, Astore->colind, Astore->rowptr,", "Astore->nzval, Astore->rowptr, Astore->colind,"), ['C01'],
+    note='row-storage view built with index arrays swapped')
+add('M01c', x4('SRC/?gssv.c', "    if ( *info == 0 ) {\n        /* Solve the system A*X=B, overwriting B with X. */", "    if ( *info <= A->ncol ) {\n        /* Solve the system A*X=B, overwriting B with X. */"),
+    ['C01'], note='solve attempted on a singular factorization')
+add('M01d', x4('SRC/?gssv.c', "      get_perm_c(permc_spec, AA, perm_c);", "      get_perm_c(permc_spec, A, perm_c);"), ['C01'], note='ordering computed on A instead of the column view')
+add('M02', [('SRC/zgstrs.c', "	    for (k = 0; k < n; k++) soln[k] = rhs_work[perm_r[k]];", "	    for (k = 0; k < n; k++) soln[k] = rhs_work[perm_c[k]];"),
+            ('SRC/cgstrs.c', "	    for (k = 0; k < n; k++) soln[k] = rhs_work[perm_r[k]];", "	    for (k = 0; k < n; k++) soln[k] = rhs_work[perm_c[k]];")], ['C01'],
+    note='transposed solve gathers by perm_c')
+add('M02b', x4('SRC/?gstrs.c', "	    for (k = 0; k < n; k++) soln[perm_r[k]] = rhs_work[k];", "	    for (k = 0; k < n; k++) soln[k] = rhs_work[perm_r[k]];"), ['C01'],
+    note='NOTRANS: gather instead of scatter by perm_r (inverse permutation)')
+add('M02c', [(f, 'sp_%strsv("U", "T", "N", L, U, &Bmat[(size_t)k * (size_t)ldb], stat, info);' % p, 'sp_%strsv("L", "T", "U", L, U, &Bmat[(size_t)k * (size_t)ldb], stat, info); /*swapped*/' % p)
+             for (f, p) in (('SRC/dgstrs.c', 'd'), ('SRC/sgstrs.c', 's'))]
+            + [(f, 'sp_%strsv("L", "T", "U", L, U, &Bmat[(size_t)k * (size_t)ldb], stat, info);\n' % p, 'sp_%strsv("U", "T", "N", L, U, &Bmat[(size_t)k * (size_t)ldb], stat, info);\n' % p)
+               for (f, p) in (('SRC/dgstrs.c', 'd'), ('SRC/sgstrs.c', 's'))], ['C01'], note='transposed solve applies L^T before U^T (real variants)')
